@@ -261,6 +261,34 @@ def build_doc(pages: List[Dict[str, Any]], rng=None) -> Tuple[bytes, bytes]:
                 d = IL.image_dict(img, False)
                 if img.get("cs_array"):
                     d["ColorSpace"] = [d["ColorSpace"]]
+                sh = img.get("shape") or {}
+
+                def ref(v):
+                    nonlocal objn
+                    objn += 1
+                    extra[objn] = v
+                    return W.Ref(objn)
+                # /Filter and /DecodeParms: a single value or an array, given directly or as indirect objects - the
+                # array itself, its elements, and the entries inside a parameter dictionary
+                if "Filter" in d:
+                    if not isinstance(d["Filter"], list) and sh.get("filter_array"):
+                        d["Filter"] = [d["Filter"]]
+                    if isinstance(d["Filter"], list) and sh.get("ind_filter_elems"):
+                        d["Filter"] = [ref(x) for x in d["Filter"]]
+                if "DecodeParms" in d:
+                    dp = d["DecodeParms"]
+                    if isinstance(dp, dict) and sh.get("dp_array"):
+                        dp = [dp]
+                    dicts = [dp] if isinstance(dp, dict) else [x for x in dp if isinstance(x, dict)]
+                    if sh.get("ind_dp_inner"):
+                        for x in dicts:
+                            for kk in list(x):
+                                x[kk] = ref(x[kk])
+                    if isinstance(dp, list) and sh.get("ind_dp_elems"):
+                        dp = [ref(x) if x is not None else x for x in dp]
+                    if sh.get("ind_dp"):
+                        dp = ref(dp)
+                    d["DecodeParms"] = dp
                 for k in img.get("indirect", []):          # the value is spelled as an indirect reference
                     objn += 1
                     extra[objn] = d[k]
@@ -397,6 +425,7 @@ def judge_file(img: Dict[str, Any], name: Optional[str], blob: Optional[bytes], 
 def export_tags(img: Dict[str, Any]) -> Dict[str, Any]:
     return {"area": "export", "kind": img["kind"], "unfiltered": not img.get("filters"), "predictor": img.get("predictor"),
             "indirect": img.get("indirect", []), "cs_array": bool(img.get("cs_array")),
+            "shape": sorted(k for k, v in (img.get("shape") or {}).items() if v),
             "rowpad": (not img["kind"].startswith("jpeg")) and IL.row_bytes(img["kind"], img["w"]) % 4 != 0,
             "place": img.get("place", "xobj")}
 
@@ -404,6 +433,15 @@ def export_tags(img: Dict[str, Any]) -> Dict[str, Any]:
 def shrink_image(img: Dict[str, Any], still_fails) -> Dict[str, Any]:
     """Greedy shrink of one image spec keeping the failure."""
     cur = dict(img)
+    for fl in sorted((cur.get("shape") or {})):
+        if cur["shape"].get(fl):
+            t = dict(cur)
+            t["shape"] = dict(cur["shape"], **{fl: False})
+            try:
+                if still_fails(t):
+                    cur = t
+            except Exception:  # noqa: BLE001
+                pass
     for key in ("cs_array", "indirect"):
         if cur.get(key):
             t = dict(cur)
@@ -753,6 +791,9 @@ def gen_pages(rng, idx0: int) -> List[Dict[str, Any]]:
                         img["indirect"] = [k for k in img["indirect"] if k != "Filter"]
                 if rng.random() < 0.15:
                     img["cs_array"] = True
+                if img.get("filters") and rng.random() < 0.6:
+                    img["shape"] = {k: rng.random() < 0.4 for k in ("filter_array", "ind_filter_elems", "dp_array",
+                                                                     "ind_dp_inner", "ind_dp_elems", "ind_dp")}
             imgs.append(img)
         pages.append({"images": imgs, "text": "t%d" % p, "nstreams": rng.choice([1, 1, 2, 3, 4]),
                       "form": rng.random() < 0.2})
